@@ -65,6 +65,10 @@ func vpName(tag string, n int) string {
 // the name helpers are mutually inverse.
 func VP_C05_Name() {
 	name := vpName("name", vpCase("n"))
+	// optional split of the same search over several workers
+	if sl := vpCaseOr("slice", -1); sl >= 0 && len(name) > 0 {
+		vpAssume(int(name[0]>>4) == sl)
+	}
 	vpAssert(nameFromText(nameToText(name)) == name, "nameFromText inverts nameToText")
 	nd := &Node{Name: name}
 	txt, err := nd.MarshalText()
